@@ -11,6 +11,8 @@ answers.  Then the handles are dropped in every order: dropping a view leaves
 the owner's contents intact and the segment in place, dropping the owner
 removes /dev/shm/<name>.  The same is done (to depth 2) for systems whose owner was
 obtained through load(file, shared_memory=True) of a non-empty saved sketch.
+Garbage-collector timing is an environment answer too: handles are also dropped
+while a view of their table sits in an uncollected reference cycle.
 """
 import copy
 import itertools
@@ -33,6 +35,9 @@ def shapes(tier, seed):
     for w in (1, 2, 3, 4):  # 2,4,6,0
         out.append(("log16", [w, 1, 10**6, 2]))
     out.append(("log16", [3, 3]))
+    # legal FALSY parameter values (num_reserved = 0: pure log counting)
+    out.append(("log8", [3, 1, 1000, 0]))
+    out.append(("log16", [3, 1, 10**6, 0]))
     for w, d in ((1, 1), (2, 1), (3, 3)):  # 4, 0, 4
         out.append(("linear", [w, d]))
     for L in range(1, 9):  # key area mod 4 = L mod 4, counters' offset (L+5) mod 8: all residues
@@ -287,6 +292,69 @@ def real_sleep_pass(rep):
         cm.sleep, hh.sleep, hl.sleep = saved
 
 
+TABLE = {"linear": "cms", "log8": "cms", "log16": "cms", "hh": "lhh_count", "hll": "registers"}
+
+
+def garbage_case(kind, args, who):
+    """The garbage collector's timing is an environment answer: a handle is dropped while a
+    numpy view of its table is referenced ONLY from a not-yet-collected reference cycle
+    (automatic collection has not run).  Dropping a view must leave the segment and the owner's
+    contents alone; dropping the owner must still remove the segment."""
+    import gc
+
+    probs = []
+    was = gc.isenabled()
+    gc.disable()
+    name = None
+    try:
+        owner = SK.make(kind, *args, shared_memory=True)
+        name = owner.shm.name
+        view = SK.make(kind, *args)
+        view.attach_existing_shm(name)
+        owner.add(alphabet(kind, args)[0], 2)
+        before = SK.tables(owner)
+        h = owner if who == "owner" else view
+        arr = getattr(h, TABLE[kind])[0:1]
+        cyc = [arr]
+        cyc.append(cyc)
+        del arr, cyc, h
+        if who == "view":
+            del view
+            if not os.path.exists("/dev/shm/" + name):
+                probs.append("segment vanished when a view (with pending garbage) was dropped")
+            elif SK.tables(owner) != before:
+                probs.append("dropping a view (with pending garbage) changed the owner's contents")
+            del owner
+        else:
+            del view
+            del owner
+        if os.path.exists("/dev/shm/" + name):
+            probs.append(f"the /dev/shm segment still exists after the owner was dropped while a "
+                         f"table view sat in uncollected cyclic garbage ({who}'s table)")
+    finally:
+        if was:
+            gc.enable()
+        gc.collect()
+        if name and os.path.exists("/dev/shm/" + name):
+            try:
+                os.unlink("/dev/shm/" + name)
+            except OSError:
+                pass
+    return probs
+
+
+def pending_garbage_pass(rep):
+    for kind, args in (("linear", [3, 1]), ("log16", [3, 1]), ("log8", [7, 3]), ("hh", [1, 1, 3]),
+                       ("hll", [7, 0])):
+        for who in ("owner", "view"):
+            p = garbage_case(kind, args, who)
+            rep.evals()
+            rep.add("transitions", 3)
+            rep.nontrivial(("garbage", kind, who))
+            if p:
+                rep.violation({"kind_": kind, "args": args, "garbage": who}, f"{kind}{args}: {p[0]}")
+
+
 def run(rep):
     from ..pool import run_tasks
 
@@ -306,6 +374,7 @@ def run(rep):
     print(f"  {len(res)} shapes, {rep.cov['states']} histories, {rep.cov['transitions']} steps",
           flush=True)
     real_sleep_pass(rep)
+    pending_garbage_pass(rep)
     left = [f for f in os.listdir("/dev/shm") if f.startswith("psm_")]
     rep.set("shm_segments_left_behind", len(left))
     rep.set(
@@ -321,6 +390,9 @@ def run(rep):
 
 def replay(case):
     quiet_shm()
+    if case.get("garbage"):
+        p = garbage_case(case["kind_"], case["args"], case["garbage"])
+        return bool(p), {"problems": p[:4]}
     if case.get("real_sleep"):
         import sketchnu.countmin as cm
         import sketchnu.heavyhitters as hh
